@@ -665,6 +665,10 @@ class SX:
                 if r is not None:
                     return [x if isinstance(x, Outcome) else Outcome(x, 'fall') for x in r]
             raise CannotDecide(f'loop at line {s.lineno} in {frame["fn"].name} is outside the recognised idioms')
+        if isinstance(s, ast.Break):
+            return [Outcome(st, 'break', None, s.lineno)]
+        if isinstance(s, ast.Continue):
+            return [Outcome(st, 'continue', None, s.lineno)]
         if isinstance(s, ast.Try):
             return self.try_stmt(s, st, frame)
         raise CannotDecide(f'statement kind {type(s).__name__} at line {s.lineno}')
@@ -752,6 +756,9 @@ class SX:
             if self.model_setters:
                 res.extend(self.setter_raises(obj, attr, value, st, frame, lineno))
             s = st.copy()
+            if '[' in obj.path:
+                # a store through a symbolic index may alias any other indexed access of the same attribute
+                s.heap = {k: v for k, v in s.heap.items() if not (k[1] == attr and '[' in k[0] and k[0] != obj.path)}
             s.heap[(obj.path, attr)] = value
             s.effects = s.effects + (('store', obj.path, attr, value, lineno, frame['fn'].name),)
             res.append(Outcome(s, 'fall'))
@@ -1819,7 +1826,12 @@ class SX:
             return res
         # not inlined: effect + typed result from the annotation
         ty, mm = self.member_type(cls, attr) if cls else (None, None)
+        if mm is not None and mm.kind == 'property':
+            ty = None       # calling a callable-valued attribute: result type unknown
         s = st.with_effect(('call', obj.path, attr, args, kwargs, n.lineno))
+        if any('[' in k[0] for k in s.heap):
+            # an opaque method may modify any attribute of the (indexed) objects: forget what is known
+            s.heap = {k: v for k, v in s.heap.items() if '[' not in k[0]}
         sig = f'{obj.path}.{attr}(' + ', '.join([self.show(a) for a in args] +
                                                 [f'{k}={self.show(v)}' for k, v in sorted(kwargs.items())]) + ')'
         return [(s, self.typed_atom(sig, ty, sig))]
